@@ -843,6 +843,12 @@ class Translator:
                 d = dotted(st.value.func)
                 if d is not None and any(d == p or d.startswith(p + ".") for p in dropped):
                     continue
+            if isinstance(st, ast.Try):
+                # look through a try statement: only what is not dropped inside it counts
+                if (self.uses_name(st.body, name) or any(self.uses_name(h.body, name) for h in st.handlers)
+                        or self.uses_name(st.orelse, name) or self.uses_name(st.finalbody, name)):
+                    return True
+                continue
             for x in ast.walk(st):
                 if isinstance(x, ast.Name) and x.id == name:
                     return True
